@@ -140,6 +140,7 @@ def check(ctx):
     oracle(ctx)
     options_probe(ctx)
     amplitude_probe(ctx)
+    aliased_params_probe(ctx)
 
 
 # ---------------------------------------------------------------- oracle
@@ -358,6 +359,24 @@ def amplitude_probe(ctx):
                     ctx.fail("oracle", "ivpgrad:%s:accuracy-vs-amplitude:%s" % (meth, nm), {"amplitude": amp, "atol": atol, "rtol": rtol, "what": nm},
                              err, "relative error <= 2e-5 with the caller's tolerances")
                     break
+
+
+def aliased_params_probe(ctx):
+    """one tensor passed in two parameter slots: the gradient w.r.t. it is the sum of the two partial derivatives, with and without
+    a recorded backward (finding F37: the non-recording backward differentiates by tensor identity and returns twice the gradient)"""
+    from xitorch.integrate import solve_ivp
+    ts = torch.linspace(0, 1, 5, dtype=DT)
+    for cg in (False, True):
+        a = torch.tensor(0.7, dtype=DT, requires_grad=True)
+        with warnings.catch_warnings():
+            warnings.simplefilter("ignore")
+            yt = solve_ivp(lambda t, y, p, q: -p * y + q, ts, torch.tensor([2.0], dtype=DT), params=(a, a), method="rk45", atol=1e-12, rtol=1e-10)
+        g, = torch.autograd.grad(yt[-1].sum(), a, create_graph=cg)
+        ctx.count(("ivpgrad-aliased-params", cg), nontrivial=True)
+        want = -float(torch.exp(-a.detach()))                       # y = 1 + exp(-a t)
+        if not abs(float(g) - want) <= 1e-7:
+            ctx.fail("oracle", "ivpgrad:aliased-explicit-params" + (":recorded-backward" if cg else ""),
+                     {"call": "solve_ivp(lambda t, y, p, q: -p*y + q, ts, [2.], params=(a, a))", "create_graph": cg}, float(g), want)
 
 
 def options_probe(ctx):
